@@ -672,6 +672,21 @@ def correspondence(ctx):
     model = common.run_model(ops, pid='C19')
     trivial = lambda op, out: out not in ('', 'bad-op', 'none') and len(out) > 1
     common.compare(ctx, ops, impl, model, nontrivial=trivial)
+    # the model's weight-enumerator integers regrouped by string weight must add up to the totals of the Lean theorem
+    # `weight_enumerator_sum_rules` (sums over the Pauli basis X^x Z^z): 2^n K 4^h and 2^n K^2 4^h
+    for op, out in zip(ops, model):
+        t = op.split(' ')
+        if t[1] == 'wenum' and ' ' in out:
+            c = codes[t[2]]
+            h, body = out.split(' ', 1)
+            ab = [tuple(int(x) for x in e.split(',')) for e in body.split(';')]
+            sa, sb = sum(a for a, _ in ab), sum(b for _, b in ab)
+            want = (2 ** c['n'] * c['K'] * 4 ** int(h), 2 ** c['n'] * c['K'] ** 2 * 4 ** int(h))
+            ctx.count('wenum-sum')
+            if (sa, sb) == want:
+                ctx.agree(op + ' sum', op + ' sum')
+            else:
+                ctx.disagree(op + ' sum', f'{sa},{sb}', f'{want[0]},{want[1]}')
     ctx.extra['exhaustive'] = True
     ctx.extra['exhaustive_domain'] = ('every code word of every shipped code; every error below the distance of the 7 codes up to 10 qubits '
                                       '(11 qubits in the thorough tier); make_error_list for all n<=6, d<=4; make_asymmetric_error_set for all n<=5 (6 thorough), d<=4, '
